@@ -185,7 +185,7 @@ fn shapes2(kind: usize, a: d2::Vector<f64>, b: d2::Vector<f64>) -> (Box<dyn Shap
     let cu = |he: d2::Vector<f64>| -> Box<dyn Shape2> { Box::new(Cuboid::new(he)) };
     let ba = |r: f64| -> Box<dyn Shape2> { Box::new(Ball::new(r)) };
     let ca = |p: d2::Vector<f64>| -> Box<dyn Shape2> { Box::new(Capsule::new_y(p.x, p.y)) };
-    match kind { 0 => (ba(a.x), ba(b.x)), 1 => (cu(a), ba(b.x)), 2 => (ba(a.x), cu(b)), 3 => (hs(a), cu(b)), 5 => (ca(a), ca(b)), _ => (cu(a), hs(b)) }
+    match kind { 0 => (ba(a.x), ba(b.x)), 1 => (cu(a), ba(b.x)), 2 => (ba(a.x), cu(b)), 3 => (hs(a), cu(b)), 5 => (ca(a), ca(b)), 6 => (cu(a), cu(b)), _ => (cu(a), hs(b)) }
 }
 /// `seq2 kind a b pred nposes pose*` → `oneshot(flag dist)* ;; manifold after every call`
 fn seq2(a: &mut Args) -> String {
@@ -314,6 +314,7 @@ fn hf2(a: &mut Args) -> String {
 
 // ---------------------------------------------------------------- exec
 pub fn exec(func: &str, a: &mut Args) -> String {
+    if let Some(s) = y::exec(func, a) { return s; }
     match func {
         "tuc3" => { let p = d3::iso(a); let mut m = man3(a); let t = a.f(); let d = a.f();
             let ok = m.try_update_contacts_eps(&p, t, d); format!("{} {}", b(ok), fman3(&m)) }
@@ -338,7 +339,7 @@ pub fn exec(func: &str, a: &mut Args) -> String {
         "cc2" => cc2(a),
         "hf2" => hf2(a),
         "seq3t" => seq3t(a),
-        "seq2t" => seq2t(a),
+        "seq2t" | "seq2m" => seq2t(a),
         "comp3" => comp3(a, false),
         "tm3" => comp3(a, true),
         _ => ext::exec(func, a),
@@ -347,6 +348,8 @@ pub fn exec(func: &str, a: &mut Args) -> String {
 
 #[path = "c14_ext.rs"]
 mod ext;
+#[path = "c14_y.rs"]
+mod y;
 
 // ---------------------------------------------------------------- generators
 /// small rotation quaternion about a random axis, angle in radians
@@ -978,5 +981,6 @@ pub fn gen(r: &mut Rng, thorough: bool) -> Vec<(String, String)> {
         v.push(gen_hf2(r, it % 4 == 0, 16));
     }
     v.extend(ext::gen(r, thorough));
+    v.extend(y::gen(r, thorough));
     v
 }
